@@ -215,3 +215,32 @@ lemma("level/linear-of-level-of-linear", "C05", _lv, "pow10((k * log10(x * r) / 
       assumes=["k > 0 and r > 0 and f > 0 and x > 0"], ns=globals())
 lemma("neper/inverse", "C05", _lv, "exp((k * ln(x) / f) * f / k) == x and k * ln(exp(x * f / k)) / f == x",
       assumes=["k > 0 and f > 0 and x > 0"], ns=globals())
+
+
+# ---- a conversion the library does not offer is refused and leaves the quantity as it was (so that a later valid
+#      conversion of the same object still follows its formula) -------------------------------------------------------------------
+REFUSED = [("dBuA", "dBA"), ("dBm", "dBSPL"), ("Cel", "eV/[k_B]"), ("K", "dB"), ("dB", "m"), ("Cel", "m"), ("degF", "s"), ("Np", "kg"), ("dBV", "W"), ("m", "dB"), ("m", "Cel")]
+
+
+@contract(Q + ".to", ["C05"], name="Quantity.to[refused-nonlinear]")
+def _(c):
+    for ua, ub in REFUSED:
+        def pre(bd, ua=ua, ub=ub):
+            q = bd.new(Q, bd.real("x"), ua)
+            return dict(args=[q, ub], env=dict(x=bd.getattr(bd.getattr(q, "magnitude"), "value"), ua=ua))
+        c.scenario(f"{ua}->{ub}", pre)
+    c.raises("True", label="refused")
+    c.on_raise("self.magnitude.value == x and self.baseunits.expression == ua", "quantity-unchanged")
+
+
+@contract(Q + ".value", ["C05"], name="Quantity.value[after-a-refused-conversion]")
+def _(c):
+    for ua, bad, ub in [("dBuA", "dBA", "uA"), ("dBm", "dBSPL", "W"), ("Cel", "m", "K"), ("dBV", "W", "V")]:
+        def pre(bd, ua=ua, bad=bad, ub=ub):
+            x = bd.real("x")
+            q = bd.new(Q, x, ua)
+            r, exc = bd.call_catching(bd.getattr(q, "to"), bad)
+            return dict(args=[q, ub], env=dict(fresh=bd.new(Q, x, ua), ua=ua, ub=ub))
+        c.scenario(f"{ua}-x->{bad}-then->{ub}", pre)
+    c.ensures("near(result, fresh.value(ub), 0)", "same-as-a-quantity-that-was-never-refused")
+    c.ensures("self.baseunits.expression == ua", "still-in-its-own-unit")
